@@ -6,6 +6,7 @@ CONSTANTS
   MaxEnv = 3
   MaxFail = 1
   Blocking = FALSE
+  SafeWatch = TRUE
   Nobody = Nobody
 VIEW view
 INVARIANT TypeOK
@@ -17,4 +18,5 @@ INVARIANT InvNoOverlap
 INVARIANT InvFailedBringUpCleansUp
 INVARIANT InvShutdownIdempotent
 INVARIANT InvRunReturns
+INVARIANT InvNotifySafe
 CHECK_DEADLOCK FALSE
